@@ -405,3 +405,196 @@ func TestVerifC02(t *testing.T) {
 		s.Done()
 	}
 }
+
+// ---- refused applies in the middle of a history (a faithful trampoline cannot be built for some prologues) ----
+
+type refusalCase struct {
+	Z    int   `json:"zoo_function"`
+	Pre  []int `json:"pre"`  // operations before the refused apply: 0 apply(b0) 1 return-stub(b0) 2 reset(b0) 3 apply(b1) 4 reset(b1) 5 cancel(b0)
+	Who  int   `json:"refused_by_builder"`
+	Post []int `json:"post"` // same alphabet, after the refused apply
+}
+
+var refusers []*corpus.Fn
+
+var zooPlaceholders []vkit.Range
+
+func findRefusers() {
+	for _, fn := range corpus.Zoo {
+		if f, ok := img.FuncAt(reflect.ValueOf(fn.Origin).Elem().Pointer()); ok {
+			zooPlaceholders = append(zooPlaceholders, vkit.Range{Lo: uintptr(f.Entry), Hi: uintptr(f.End)})
+		}
+		b := mocker.Create()
+		rec := &corpus.Rec{}
+		if pv := guard(func() { b.Func(fn.Fn).Origin(fn.Origin).Apply(fn.MkRepl(rec)) }); pv != nil {
+			refusers = append(refusers, fn)
+		}
+		b.Reset()
+	}
+}
+
+// refusalText recognises goom's ways of refusing a target (error wrapped by the mocker, or a panic from the relocation code)
+func refusalText(pv interface{}) bool {
+	msg := fmt.Sprint(pv)
+	for _, t := range []string{"cannot do pathes", "proxy func definition error", "address overflow", "not support of jump", "fixRelativeAddr err", "checkJumpBetween err"} {
+		if strings.Contains(msg, t) {
+			return true
+		}
+	}
+	return false
+}
+
+func runRefusal(ci interface{}, s *vkit.Stats) error {
+	c := ci.(*refusalCase)
+	if len(refusers) == 0 {
+		return nil
+	}
+	fn := refusers[c.Z%len(refusers)]
+	entry := reflect.ValueOf(fn.Fn).Pointer()
+	off := int(entry - img.Addr)
+	bs := []*mocker.Builder{mocker.Create(), mocker.Create()}
+	defer func() {
+		for _, b := range bs {
+			_ = guard(func() { b.Reset() })
+		}
+	}()
+	live := map[int]bool{} // builder -> has a live mocker on fn
+	shared := false
+	var allowedPH []vkit.Range
+	for k := range usedPlaceholder {
+		allowedPH = append(allowedPH, vkit.Range{Lo: placeholders[k][0], Hi: placeholders[k][1]})
+	}
+	// placeholders of zoo functions whose origin-apply was accepted by findRefusers are rewritten bodies as well
+	allowedPH = append(allowedPH, zooPlaceholders...)
+	check := func(what string) error {
+		allowed := append([]vkit.Range{}, allowedPH...)
+		if len(live) > 0 || shared {
+			allowed = append(allowed, vkit.Range{Lo: entry, Hi: entry + 13})
+		}
+		if bad := vkit.Outside(img.Diff(), allowed); len(bad) > 0 {
+			return fmt.Errorf("%s on %s: image differs from pristine outside what may be patched now: %s", what, fn.Name, img.Describe(bad))
+		}
+		pristine := bytes.Equal(img.Live[off:off+13], img.Pristine[off:off+13])
+		if len(live) == 0 && !pristine {
+			return fmt.Errorf("%s on %s: no live mock, but the entry bytes are % x", what, fn.Name, img.Live[off:off+13])
+		}
+		return nil
+	}
+	do := func(op int, phase string) error {
+		bi := 0
+		if op == 3 || op == 4 {
+			bi = 1
+		}
+		b := bs[bi]
+		var pv interface{}
+		switch op {
+		case 0, 3:
+			rec := &corpus.Rec{Res: resultsFor(fn, 7)}
+			pv = guard(func() { b.Func(fn.Fn).Apply(fn.MkRepl(rec)) })
+			if pv == nil {
+				live[bi] = true
+			}
+		case 1:
+			if fn.Type.NumOut() == 0 {
+				return nil
+			}
+			res := resultsFor(fn, 9)
+			vals := make([]interface{}, len(res))
+			for i := range vals {
+				vals[i] = res[i].Interface()
+			}
+			pv = guard(func() { b.Func(fn.Fn).Return(vals...) })
+			if pv == nil {
+				live[bi] = true
+			}
+		case 2, 4:
+			pv = guard(func() { b.Reset() })
+			delete(live, bi)
+		case 5:
+			pv = guard(func() { b.Func(fn.Fn).Cancel() })
+			delete(live, bi)
+		}
+		if len(live) > 1 {
+			shared = true
+		}
+		if len(live) == 0 {
+			shared = false
+		}
+		if pv != nil && refusalText(pv) {
+			// refused (too short, or the cached mocker still carries the origin placeholder of the refused apply): goom has
+			// unpatched whatever this builder had on the function before it refused
+			delete(live, bi)
+			if len(live) > 0 {
+				shared = true
+			}
+			pv = nil
+			s.Class("later-apply-refused-too")
+		}
+		if pv != nil {
+			return fmt.Errorf("%s: operation %d on %s panicked: %v", phase, op, fn.Name, pv)
+		}
+		return check(fmt.Sprintf("%s: operation %d", phase, op))
+	}
+	for _, op := range c.Pre {
+		if err := do(op, "before the refused apply"); err != nil {
+			return err
+		}
+	}
+	// the refused apply
+	hadLive := len(live) > 0
+	rec := &corpus.Rec{}
+	pv := guard(func() { bs[c.Who%2].Func(fn.Fn).Origin(fn.Origin).Apply(fn.MkRepl(rec)) })
+	if pv == nil {
+		return nil // accepted this time (not a refuser after all): other units cover it
+	}
+	if hadLive {
+		// goom unpatches the previous mock before it finds out that it must refuse: which state the function is in
+		// is not fixed by the statement; the byte invariant still is
+		shared = true
+		s.Class("refused-apply-over-a-live-mock")
+	} else {
+		s.Class("refused-apply-after-all-mocks-were-reset")
+	}
+	if err := check("right after the refused apply"); err != nil {
+		return err
+	}
+	for _, op := range c.Post {
+		if err := do(op, "after the refused apply"); err != nil {
+			return err
+		}
+	}
+	for i, b := range bs {
+		if pv := guard(func() { b.Reset() }); pv != nil {
+			return fmt.Errorf("final Reset of builder %d panicked: %v", i, pv)
+		}
+	}
+	live, shared = map[int]bool{}, false
+	if err := check("after all builders were reset"); err != nil {
+		return err
+	}
+	s.NonTrivial(fmt.Sprint(*c))
+	s.Sample(c)
+	return nil
+}
+
+func TestVerifC02Refusals(t *testing.T) {
+	if img == nil {
+		t.Skip("runs after TestVerifC02")
+	}
+	findRefusers()
+	p := &vkit.Prop{ID: "C02", Unit: "refused-applies", Journal: true, New: func() interface{} { return &refusalCase{} },
+		Gen: func(rt *rapid.T) interface{} {
+			return &refusalCase{Z: rapid.IntRange(0, 31).Draw(rt, "z"), Pre: rapid.SliceOfN(rapid.IntRange(0, 5), 0, 6).Draw(rt, "pre"),
+				Who: rapid.IntRange(0, 1).Draw(rt, "who"), Post: rapid.SliceOfN(rapid.IntRange(0, 5), 0, 4).Draw(rt, "post")}
+		},
+		Run: runRefusal}
+	s := p.Main(t, vkit.Scale(600, 8000))
+	if !vkit.Replaying() {
+		var names []string
+		for _, f := range refusers {
+			names = append(names, f.Name)
+		}
+		s.Note("zoo functions whose origin-apply goom refuses: %v", names)
+		s.Done()
+	}
+}
